@@ -18,7 +18,7 @@ import (
 
 // C12 — JSON document scanner accepts exactly RFC 8259; lexemes rebuild the document.
 
-var c12Tokens = toks(`{`, `}`, `[`, `]`, `:`, `,`, `"`, `a`, `\`, `u`, `0`, `1`, `-`, `.`, `e`, `+`, `true`, `null`, `false`, ` `, "\n", `"k"`, "\x01", "é")
+var c12Tokens = toks(`{`, `}`, `[`, `]`, `:`, `,`, `"`, `a`, `\`, `u`, `0`, `1`, `-`, `.`, `e`, `+`, `true`, `null`, `false`, ` `, "\n", `"k"`, "\x01", "é", "\x1f")
 
 func toks(ss ...string) [][]byte {
 	out := make([][]byte, len(ss))
@@ -314,6 +314,9 @@ func c12Lexemes(w *core.W, in []byte, entry string, trailing bool, valueEnd int)
 			done = &v
 		case lexeme.ObjectKeyEnd:
 			k, ok := ref.DecodeString(span)
+			if len(span) < 2 || span[0] != '"' || span[len(span)-1] != '"' {
+				ok = false // the span must be exactly the key literal, byte for byte
+			}
 			if !ok {
 				fail("lexemes", fmt.Sprintf("key span %q is not exactly one JSON string", span), map[string]string{"type": t.String(), "what": "key-span"})
 				return
@@ -402,7 +405,7 @@ func c12Depth(tier string) int {
 	return 8
 }
 
-var c12Symbols = []byte("{}[]:,\"\\/bfnrtuaeEsl019-+. \t\n\rx\x01\x7f\xc3\xa9\x00")
+var c12Symbols = []byte("{}[]:,\"\\/bfnrtuaeEsl019-+. \t\n\rx\x01\x1f\x7f\xc3\xa9\x00")
 
 func c12StateSearch(w *core.W) {
 	for _, trailing := range []bool{false, true} {
